@@ -78,7 +78,7 @@ fn do_cli(ctx: &mut Ctx, a: &[BigInt], expected: &str) {
     if a.is_empty() {
         v = match v { 1 | 2 => 0, 5 => 3, x => x };
     }
-    let cfg = format!("to_find = ['factorization']\n[input]\npolynomials = {}\n", toml_polys(&[a], v));
+    let cfg = format!("to_find = {}\n[input]\npolynomials = {}\n", to_find_list("factorization", &["prime-decomposition", "factorization-mod-p"], v), toml_polys(&[a], v));
     if let Some(out) = run_cli(&cfg) {
         let ans = if out.starts_with("panic") { out } else { parse_cli(&out).unwrap_or_else(|| "noanswer".into()) };
         ctx.emit("cli.pz", &[show_ints(a), expected.to_string()], ans);
@@ -368,6 +368,25 @@ pub fn generate(ctx: &mut Ctx) {
         do_expected(ctx, &e, true);
     }
 
+    // 1b. one coefficient dominating the others (the factor-coefficient bound sums ALL coefficients, also the
+    //     constant term and the one next to the leading term): differences of squares and cubes with large
+    //     roots, and products whose x^(n-1) coefficient is huge
+    for a in [7i64, 30, 100, 999, 12345, 1_000_003] {
+        let e = expectation(BigInt::one(), vec![(iv(&[-a, 1]), 1), (iv(&[a, 1]), 1)]);
+        do_expected(ctx, &e, false);
+        let e = expectation(BigInt::one(), vec![(iv(&[-a, 1]), 1), (iv(&[a * a, a, 1]), 1)]);
+        do_expected(ctx, &e, false);
+    }
+    for (c2, m, d) in [(34i64, 1224i64, 36i64), (47, 64061, 29), (3, 100000, 7), (5, 999983, 11)] {
+        // (c2 x^2 + 1)(x^3 + m x^2 - d): the oracle decides alone
+        let e: Expected = (BigInt::one(), vec![(iv(&[1, 0, c2]), 1), (iv(&[-d, 0, m, 1]), 1)]);
+        let f = expand(&e);
+        do_factor(ctx, &f, None);
+    }
+    for (a, b) in [(1000i64, 1001i64), (-5000, 7000), (123456, -123457)] {
+        let e = expectation(BigInt::one(), vec![(iv(&[-a, 1]), 1), (iv(&[-b, 1]), 1), (iv(&[1, 1, 1]), 1)]);
+        do_expected(ctx, &e, false);
+    }
     // 2. exhaustive: every polynomial with few small coefficients (no expectation: the oracle decides alone)
     let mut small = if ctx.thorough { small_polys(5, 3) } else { small_polys(5, 2) };
     small.extend(small_polys(if ctx.thorough { 8 } else { 6 }, 1).into_iter().filter(|v| v.len() >= 6));
